@@ -360,6 +360,9 @@ class PosBase(np.ndarray):
         if key in self._attributes() or key == "ref_pos":
             prev_attr_value = getattr(self, key, None)
             if prev_attr_value is not None:
+                # An attached object is replaced or removed: what other objects keep of this one (the array that hands it out
+                # as its conversion) is out of date, like after an item assignment
+                self._clear_dependent_caches()
                 try:
                     prev_attr_value.remove_dependency(self)
                 except AttributeError:
